@@ -143,10 +143,12 @@ func (o *Obligation) extractModel(solver *smt.Solver) *Model {
 		add(res.pktLen0)
 		add(res.retTerm)
 		add(res.finalLen)
-		for _, v := range o.values {
-			if !seen[v] {
-				seen[v] = true
-				gv = append(gv, v)
+		if o.cex == nil {
+			for _, v := range o.values {
+				if !seen[v] {
+					seen[v] = true
+					gv = append(gv, v)
+				}
 			}
 		}
 		for _, b := range res.probes.blocks {
@@ -168,7 +170,12 @@ func (o *Obligation) extractModel(solver *smt.Solver) *Model {
 		for i := 0; i < res.ctxSize; i++ {
 			add(smt.Select(res.ctx0, lit(uint64(i), 64)))
 		}
-		q := res.ctx.Query(o.facts.list(), o.pc, o.goal, gv)
+		var q string
+		if o.cex != nil {
+			q = res.ctx.SatQuery(o.facts.list(), smt.And(o.pc, *o.cex), gv)
+		} else {
+			q = res.ctx.Query(o.facts.list(), o.pc, o.goal, gv)
+		}
 		names := map[string]string{}
 		for k, v := range res.probeNames {
 			names[k] = v
